@@ -19,6 +19,7 @@ import (
 	"syscall"
 	"time"
 
+	"github.com/ansible/receptor/pkg/verifhook"
 	"github.com/ghjm/cmdline"
 	"github.com/google/shlex"
 	"github.com/spf13/viper"
@@ -145,6 +146,7 @@ func commandRunner(command string, params string, unitdir string) error {
 	} else {
 		cmd.Stdin = stdin
 	}
+	verifhook.Step("runner.stdout.open", statusFilename)
 	stdout, err := os.OpenFile(path.Join(unitdir, "stdout"), os.O_CREATE+os.O_WRONLY+os.O_SYNC, 0o600)
 	if err != nil {
 		return err
@@ -261,6 +263,7 @@ func (cw *commandUnit) runCommand(cmd *exec.Cmd) error {
 	cw.done = false
 	cmd.Stdout = os.Stdout
 	cmd.Stderr = os.Stderr
+	verifhook.Step("command.exec", cw.StatusFileName())
 	if err := cmd.Start(); err != nil {
 		cw.UpdateBasicStatus(WorkStateFailed, fmt.Sprintf("Failed to start command runner: %s", err), 0)
 
